@@ -5,16 +5,26 @@ package main
 // C13 — compilation and code generation are deterministic functions of the
 // sources.
 //
-// Every generated bundle (program generator of gen_prog.go plus an "extras"
-// file: several imports, directives and functions for the ES6 import block,
-// messages with colliding placeholder base names, map literals, globals; and
+// Every generated bundle (program generator of gen_prog.go plus library files,
+// an "extras" file -- several imports, directives and functions for the ES6
+// import block, messages with colliding placeholder base names, map literals,
+// globals of every shape (maps, lists, nested) added through AddGlobalsMap or a
+// globals file, templates with header params with and without a soydoc that
+// pass params on with data="all" -- zero to two more files of messages whose
+// print placeholders and plural selectors share one pool of expressions; and
 // optionally one to three independent errors spread over the files, globals
 // maps that redefine names) is
 //   - compiled and emitted c13Reps times in this process (Go randomises map
 //     iteration per loop, so repetitions explore different internal orders),
-//   - compiled and emitted once in each of two fresh processes,
-//   - under every permutation of the file insertion order (<= 4 files:
-//     exhaustive),
+//     alternating between a NEW bundle and calling Compile AGAIN on the same
+//     *soy.Bundle object (also after a failed Compile); one new bundle is first
+//     compiled with CompileToTofu and rendered through that Tofu,
+//   - compiled once under every other permutation of the file insertion order
+//     (<= 4 files: exhaustive) and compared with the first order,
+//   - compiled in fresh processes: the first and one other order in two worker
+//     processes per batch (the second runs the batch in reverse), and for
+//     bundles with messages in several files each such file in front, every
+//     order in a process of its own (one compilation per process),
 //   - for the ES5 and ES6 formatters, with and without a message bundle.
 // Projection (the observables of the statement): Bundle.Compile's error text;
 // for accepted bundles the exact bytes of every file's JavaScript (4
@@ -763,6 +773,16 @@ func c13CheckCase(e *env, c *c13Case, reps int, orders [][]int) (first *c13Obs, 
 			}
 			if o.digest() != o0.digest() {
 				what, va, vb := c13Diff(o0, o)
+				if i%2 == 1 || i == 2 {
+					// is it the re-use of the bundle object, or do new bundles differ as well?
+					for j := 0; j < 8; j++ {
+						if o2, _ := c13Observe(c, p, lite); o2.digest() != o0.digest() {
+							how = "two compilations of the same sources (new bundle each, same file order, same process)"
+							what, va, vb = c13Diff(o0, o2)
+							break
+						}
+					}
+				}
 				e.res.Fail(hx.Violation{Kind: "oracle", What: how + " differ in: " + what,
 					Case: c13Replay{Case: *c, Order: p}, Expected: hx.Q(va), Observed: hx.Q(vb)}, "")
 				return first, reg, byOrder, true
@@ -838,7 +858,7 @@ func c13CheckCase(e *env, c *c13Case, reps int, orders [][]int) (first *c13Obs, 
 // ---------- driver ----------
 
 func runC13(e *env) {
-	e.res.Rule = fmt.Sprintf("bundles of the program generator (1-5 templates over 1-3 files, all commands, messages, directives) plus an extras file (2-4 cross-namespace calls + directives + functions for the ES6 import block, messages with colliding placeholder base names and equal map-literal placeholders, nested map literals, globals) and 0-2 globals maps; 45%% of the bundles get 1-3 independent injected errors (syntax, namespace, soydoc+header params, duplicate template, unknown data refs / globals inside one map literal, unused param/let, bad calls, globals redefined by a second map) spread over the files. Each bundle: %d in-process compile+emit repetitions of the identity order, 2 of every other permutation of the file order (<= 4 files: all permutations), 2 fresh processes; ES5 and ES6, with and without a message bundle; every template rendered with and without the bundle. Non-trivial = more than one file or an injected error or a message/map literal/import; distinct by sources + globals.", c13Reps)
+	e.res.Rule = fmt.Sprintf("bundles of the program generator (1-5 templates over 1-3 files, all commands, messages, directives) plus an extras file (2-4 cross-namespace calls + directives + functions for the ES6 import block, messages with colliding placeholder base names and equal map-literal placeholders, nested map literals, globals incl. map- and list-valued ones, header-param templates with and without soydoc, data=all), 0-2 files of messages (indexed data refs as placeholders and plural selectors) and 0-2 globals groups (AddGlobalsMap or globals file); 45%% of the bundles get 1-3 independent injected errors (syntax, namespace, soydoc+header params, duplicate template, unknown data refs / globals inside one map literal, unused param/let, bad calls, globals redefined by a second map) spread over the files. Each bundle: %d in-process compile+emit repetitions of the first file order (alternating a new bundle and Compile again on the same bundle object; once CompileToTofu first), every other permutation of the file order once (<= 4 files: all permutations), 2 worker processes per batch (second in reverse) and single-compilation processes for bundles with messages in several files; ES5 and ES6, with and without a message bundle; every template rendered with and without the bundle. Non-trivial = more than one file or an injected error or a message/map literal/import; distinct by sources + globals.", c13Reps)
 	if e.replay != "" {
 		c13ReplayRun(e)
 		return
